@@ -212,6 +212,9 @@ def run(case):
         classes.append("size>0x4000")
     if origin is not None:
         classes.append("origin")
+        names = [q[0] for q in case["question"]] + [rs["name"] for sec in case["sections"] for rs in sec]
+        if any(sum(len(l) // 2 + 1 for l in nm) == 255 for nm in names):
+            classes.append("relative-255")
     if m.edns >= 0:
         classes.append("edns")
     classes.append("opcode:%d" % int(m.opcode()))
@@ -223,6 +226,6 @@ def parts(tier):
     return [
         Part("messages", run, strategy=MG.message(), n={"quick": 5000, "thorough": 300000},
              require={"pointer": 1000, "extended-rcode": 100, "update-any-none": 100, "size>0x4000": 20,
-                      "origin": 300, "edns": 1000, "opcode:5": 200, "opcode:4": 100},
+                      "origin": 300, "relative-255": 10, "edns": 1000, "opcode:5": 200, "opcode:4": 100},
              shards={"quick": 16, "thorough": 16}),
     ]
